@@ -39,7 +39,7 @@ func init() {
 		ID:    "C06",
 		Level: "model_checking",
 		Rule: "E3 stateless deviation-bounded DFS over a scripted io.Reader: (frames) every frame of the alphabet {generated protobuf message, its versioned wrapper, legacy Marshal/Unmarshal message, its versioned variant} × payload lengths {0,1,2,31,32,33,127,128,129,5000, 2^20+1 (+65535, 65536, 2^20, 2^21+5 thorough)} × versions (every length 0..16, an interior NUL, a leading NUL, trailing spaces): Marshal's count = bytes written = Size = HeaderSize + encoding length, wire bytes = independently built header + encoding, ReadHeader = (version, 32, length) consuming 32 bytes; " +
-			"(histories) every stream of 1..3 frames over a 6-frame sub-alphabet, read back by k+1 Unmarshal calls under every reader chunking with ≤B deviations from 'deliver as much as asked' (deviations: return only j bytes for any j, deliver the last bytes together with io.EOF, one (0,nil) read) plus every uniform chunk size 1..len; every stream also through 11 standard-library reader types and every frame marshalled into 4 standard-library writer types (code may special-case dynamic types); three streams in which a frame with a body above 1 MiB is followed by further frames, under whole/uniform chunkings and one forced short read around every frame boundary, body start and power of two; each call must return the next message, its version, n = frame length = bytes actually pulled from the reader, and the extra call (0, cause io.EOF). " +
+			"(histories) every stream of 1..3 frames over a 6-frame sub-alphabet, read back by k+1 Unmarshal calls under every reader chunking with ≤B deviations from 'deliver as much as asked' (deviations: return only j bytes for any j, deliver the last bytes together with io.EOF, one (0,nil) read) plus every uniform chunk size 1..len; every stream also through 11 standard-library reader types and every frame marshalled into 4 standard-library writer types (code may special-case dynamic types); every stream also MARSHALLED frame after frame into one writer (the last message object twice) and read back into reused target messages; three streams in which a frame with a body above 1 MiB is followed by further frames, under whole/uniform chunkings and one forced short read around every frame boundary, body start and power of two; each call must return the next message, its version, n = frame length = bytes actually pulled from the reader, and the extra call (0, cause io.EOF). " +
 			"states = choice-tree nodes (= executions), transitions = reader answers given. Non-trivial: executions with at least one deviation or a multi-frame stream.",
 		Assumptions: []string{
 			"readers respect the io.Reader contract apart from the listed deviations; at most B simultaneous deviations",
@@ -393,6 +393,52 @@ func c06MarshalStd(f c06Frame, kind string) (got, want string) {
 	return fmt.Sprintf("n=%d err=%s written=%s", n, errName(err), digest(out)), want
 }
 
+// c06MarshalSeq marshals the frames of a stream one after the other into ONE
+// writer (with the same message object marshalled twice at the end) and reads
+// them back into REUSED target messages: state must not be carried between calls.
+func c06MarshalSeq(frames []c06Frame) (got, want string) {
+	defer func() {
+		if e := recover(); e != nil {
+			got += fmt.Sprint(" panic: ", e)
+		}
+	}()
+	w := &c06CountWriter{}
+	var exp []byte
+	var last proto.Message
+	for _, f := range frames {
+		m := c06Msg(f)
+		n, err := pbcmpl.Marshal(w, m)
+		wire := c06Wire(f)
+		exp = append(exp, wire...)
+		got += fmt.Sprintf("[n=%d err=%s]", n, errName(err))
+		want += fmt.Sprintf("[n=%d err=nil]", len(wire))
+		last = m
+	}
+	// the same object once more
+	lf := frames[len(frames)-1]
+	n, err := pbcmpl.Marshal(w, last)
+	exp = append(exp, c06Wire(lf)...)
+	got += fmt.Sprintf("[again n=%d err=%s]", n, errName(err))
+	want += fmt.Sprintf("[again n=%d err=nil]", len(c06Wire(lf)))
+	got += " written=" + digest(w.buf.Bytes())
+	want += " written=" + digest(exp)
+	// read back into one reused target per kind
+	targets := map[string]proto.Message{}
+	r := bytes.NewReader(w.buf.Bytes())
+	all := append(append([]c06Frame{}, frames...), lf)
+	for _, f := range all {
+		t := targets[f.Kind]
+		if t == nil {
+			t = c06Empty(f.Kind)
+			targets[f.Kind] = t
+		}
+		n, ver, err := pbcmpl.Unmarshal(r, t)
+		got += fmt.Sprintf("[n=%d ver=%q err=%s payload=%s]", n, ver, errName(err), digest(c06PayloadOf(t)))
+		want += fmt.Sprintf("[n=%d ver=%q err=nil payload=%s]", len(c06Wire(f)), c06Ver(f), digest(c06Payload(f.Payload)))
+	}
+	return got, want
+}
+
 func c06Versions() []string {
 	const base = "1.22.333-rc.4+b56"
 	var out []string
@@ -614,6 +660,12 @@ func c06Run(c *mc.Ctx) {
 	// standard-library writer types (code may special-case dynamic types)
 	c.Par(len(streams), func(si int) {
 		fr := streams[si]
+		if g, w := c06MarshalSeq(fr); g != w {
+			c.Fail(8<<40|int64(si)<<8, "marshalseq", "marshalseq", c06Case{Frames: fr}, g, w)
+		}
+		c.Count(1, 1)
+		c.Add("states", 1)
+		c.Add("marshal_sequences", 1)
 		for _, rk := range c07StdReaders {
 			g, w := c06StreamStd(fr, rk)
 			if g != w {
@@ -649,6 +701,8 @@ func c06Run(c *mc.Ctx) {
 
 func c06Judge(kind string, cs c06Case) (got, want string) {
 	switch kind {
+	case "marshalseq":
+		return c06MarshalSeq(cs.Frames)
 	case "stream/std":
 		return c06StreamStd(cs.Frames, cs.Std)
 	case "marshal/std":
